@@ -32,6 +32,38 @@ Example flag_rule_witness :
   visit 3 (NCall 1 [(NGeneric [], false)]) = None /\ visit 3 (NCall 7 [(NPlace false [], true)]) = None.
 Proof. vm_compute. auto. Qed.
 
+(** qubit_detection: `contain_qubit_ty` (QubitFinder over the accept methods of tys/ty.py) answers
+    True exactly when a qubit occurs anywhere inside the type — at any nesting depth, through
+    type arguments, tuple elements and struct fields.  Unbounded (induction on types). *)
+Theorem qubit_detection : forall t, contains_qubit t = true <-> qubit_occurs t.
+Proof. exact ty_visit_iff. Qed.
+Print Assumptions qubit_detection.
+
+Example qubit_detection_witness :   (* array[array[qubit]], tuple[int, tuple[int, array[qubit]]], struct with a qubit field, look-alikes *)
+  contains_qubit (GOpaque [Some (GOpaque [Some GQubit; None]); None]) = true /\
+  contains_qubit (GTuple [Some GLeaf; Some (GTuple [Some GLeaf; Some (GOpaque [Some GQubit; None])])]) = true /\
+  contains_qubit (GStruct [] [GLeaf; GOpaque [Some (GTuple [Some GQubit])]]) = true /\
+  contains_qubit (GOpaque [Some (GOpaque [Some GLeaf; None]); None]) = false /\
+  contains_qubit (GStruct [] [GLeaf; GTuple [Some GLeaf]]) = false.
+Proof. vm_compute. auto 6. Qed.
+
+(** flag_rule_typed: the flag rule with the checker's own qubit test in the loop: a call whose
+    arguments have types [tys] (and pass themselves) is rejected iff a qubit occurs in the type
+    of some argument and the context flags are not a subset of the callee's. *)
+Theorem flag_rule_typed : forall fl cf (targs : list (node * gty)), In fl lattice -> In cf lattice ->
+  let args := map (fun p => (fst p, contains_qubit (snd p))) targs in
+  visit_list fl (map fst args) = None ->
+  (visit fl (NCall cf args) <> None <-> (exists p, In p targs /\ qubit_occurs (snd p)) /\ ~ subset fl cf).
+Proof.
+  intros fl cf targs Hf Hc args A. destruct (flag_rule fl cf args Hf Hc A) as [R _]. rewrite R. unfold args. split.
+  - intros [[p [I Q]] S]. split; [|exact S]. apply in_map_iff in I. destruct I as [x [E I]]. subst p. simpl in Q.
+    exists x. split; [exact I | now apply qubit_detection].
+  - intros [[x [I Q]] S]. split; [|exact S]. exists (fst x, contains_qubit (snd x)). split.
+    + apply in_map_iff. exists x. auto.
+    + simpl. now apply qubit_detection.
+Qed.
+Print Assumptions flag_rule_typed.
+
 (** checker_covers_all_calls: if check_cfg_unitary accepts a CFG then EVERY call node that
     occurs anywhere in any AST-bearing field of any block (cfg/bb.py: statements and the
     branch predicate), at any depth (nested argument in any position, assignment target or
